@@ -8,7 +8,11 @@ PROPS = {
     },
     "C02": {
         "level": "proof",
-        "units": [{"kind": "verus", "name": "decomposition scanners + accessors vs RFC 3986 App. B spec", "specs": ["00_base", "01_chars", "02_authority", "03_types"]}],
+        "units": [{"kind": "verus", "name": "decomposition scanners + accessors vs RFC 3986 App. B spec", "specs": ["00_base", "01_chars", "02_authority", "03_types"]},
+                  {"kind": "kani", "name": "facade wrappers (uri/, iri/) agree with the proved accessors - BOUNDED", "harnesses": [
+            {"name": "facade_uriref_parts_5", "bound": "all ASCII texts up to 5 bytes"},
+            {"name": "facade_iriref_parts_5", "bound": "all ASCII texts up to 5 bytes"},
+            {"name": "facade_uri_parts_5", "bound": "all ASCII texts up to 5 bytes with a scheme"}]}],
         "assumptions": ["type invariant of references taken as precondition: ref_shape (text does not start with ':')",
                         "uri/ and iri/ impl blocks (field projections, generated new_unchecked/as_bytes) satisfy the trait contracts"],
         "not_covered": ["'each component is a valid value of its type' relies on grammar lemma G1 (not yet machine-checked)",
@@ -16,7 +20,9 @@ PROPS = {
     },
     "C03": {
         "level": "proof",
-        "units": [{"kind": "verus", "name": "authority scanners + AuthorityImpl accessors vs RFC 3986 3.2 spec", "specs": ["00_base", "01_chars", "02_authority", "03_types"]}],
+        "units": [{"kind": "verus", "name": "authority scanners + AuthorityImpl accessors vs RFC 3986 3.2 spec", "specs": ["00_base", "01_chars", "02_authority", "03_types"]},
+                  {"kind": "kani", "name": "Authority::parts wrappers of both families agree - BOUNDED", "harnesses": [
+                      {"name": "facade_authority_parts_5", "bound": "all ASCII texts up to 5 bytes without '/', '?', '#'"}]}],
         "assumptions": ["type invariant of authorities taken as precondition: auth_shape ('[' only opens the host, only ':port' follows ']', one '@' at most)"],
         "not_covered": ["validity of each part as a value of its own type (grammar lemma G3)"],
     },
@@ -26,6 +32,27 @@ PROPS = {
         "assumptions": ["type invariant of references as precondition: ref_shape; arguments satisfy the structural consequences of their grammars (scheme_shape, authority_shape, path_shape, query_shape)"],
         "not_covered": ["RiBufImpl::set_scheme (URI/IRI with mandatory scheme) and from_scheme: not under contract",
                         "uri/ iri/ one-line wrappers", "validity of the result as a member of the RFC language (needs grammar lemma G1; only the structural decomposition is proved)"],
+    },
+    "C06": {
+        "level": "proof",
+        "units": [{"kind": "verus", "name": "RiRefBufImpl::resolve: RFC 3986 5.2.2 component selection + exact path per branch, over the contracts of the setters (C05), PathMutImpl (C09/C10), accessors (C02) and parent_or_empty (C12)",
+                   "include_props": ["C02", "C05", "C09", "C10", "C12"], "per_function": ["common::path_mut"], "rlimit": 1000}],
+        "assumptions": ["type invariants as preconditions: ref_shape of the reference and of the base, the base has a scheme; 8*|R| + 4*|B| + 64 < usize::MAX (no overflow of the intermediate buffers)",
+                        "the proof of resolve is split by branch into five Verus queries (mechanical case split of the twin: in variant k the other four marked branches start with assume(false) and are verified in their own variant; unmarked code is verified in every variant)",
+                        "the generic symbolic_append keeps its contract as an assumption; it is proved (twin) for the iterator the library passes (SegmentsImpl)",
+                        "uri/ iri/ entry points (resolve, resolved, into_resolved) are one-line delegations to RiRefBufImpl::resolve (outside Verus); `base unchanged` holds by the shared borrow `&Self::Ri`"],
+        "not_covered": ["the link between the exact per-branch path text (proved) and RFC 3986 5.2.3 merge + 5.2.4 remove_dot_segments of the whole path is NOT proved as a lemma; deviations found by probing are recorded findings (trailing '/' after a final dot segment is lost by in-place normalisation; empty segments appended to an empty path are dropped)",
+                        "agreement of the URI and IRI families (same generic code instantiated twice; the facade wrappers are outside Verus)",
+                        "into_resolved (unchecked reinterpretation of the resolved buffer as RiBuf) - justified by `result has a scheme` (proved) but the cast itself is not under contract"],
+    },
+    "C19": {
+        "level": "other",
+        "units": [{"kind": "verus", "name": "SegmentImpl::as_pct_str against the dependency's documented precondition (decoded octets are UTF-8)",
+                   "specs": ["00_base", "01_chars", "02_authority", "03_types", "04_path"]}],
+        "assumptions": ["PctStr::new_unchecked requires `pct_decodes_to_utf8(text)` (pct-str 2.0 documentation: 'must be a valid percent-encoded string'; its Eq/Hash/chars unwrap the UTF-8 decoder) - assumed contract of the dependency"],
+        "not_covered": ["Host / UserInfo / Query / Fragment ::as_pct_str and ::into_pct_string (uri/, iri/ facade files: same one-line unchecked cast, outside Verus)",
+                        "behaviour of pct-str itself (decode, chars, len, comparison with str)"],
+        "explanation": "Negative decision. The contract of SegmentImpl::as_pct_str has the postcondition `pct_text(result) == text(self)` (proved) and must establish the precondition of PctStr::new_unchecked at its call site from the only thing a valid segment guarantees (seg_shape: RFC grammar, '%' HEXDIG HEXDIG). That precondition obligation cannot be discharged - it is the gap the property describes - and the witness %FF replays on the real code as a panic. It is listed in known_findings.json; the check exits 0 with a KNOWN-FINDING line and reports any OTHER failing obligation of as_pct_str as a violation.",
     },
     "C09": {
         "level": "proof",
@@ -76,6 +103,16 @@ PROPS = {
 }
 
 MANIFEST_TEXT = {
+    "C06": {
+        "technique": "Verus contract on the real RiRefBufImpl::resolve (proved on its mechanically generated twin, five queries by branch), composed modularly from the contracts of the setters, the path handle and the accessors",
+        "level_text": "Deductive proof for all (reference, base) pairs of any length: resolve never panics or overflows, the result is a well-shaped reference WITH a scheme, and its scheme, authority, query and fragment are exactly the RFC 3986 5.2.2 selection (T.scheme/T.authority/T.query/T.fragment table, including 'query of the base only when the reference has an empty path and no query'); the path is pinned exactly per branch: base path when the reference's path is empty, the in-place normalisation of the reference's own path in the scheme / authority / absolute-path branches, and in the merge branch the composition base-directory (or '/' for an empty base path after an authority) -> normalise -> symbolic append of the reference's segments -> set_path disambiguation, each step being a function under contract.",
+        "level_note": "NOT proved: that the per-branch path text equals RFC 5.2.3 merge + 5.2.4 dot removal of the whole path (no lemma yet; two deviations are recorded findings with witnesses). Proof of resolve split into 5 queries by branch (case split listed as assumption). Facade entry points and URI/IRI agreement outside Verus.",
+    },
+    "C19": {
+        "technique": "Verus contract on the real SegmentImpl::as_pct_str against an assumed contract of the dependency (PctStr::new_unchecked requires UTF-8 decodability); the failing call-site precondition is the decision",
+        "level_text": "Negative decision with witness: the view is faithful (postcondition `text of the view == text of the segment` proved) but NOT total - the precondition of the unchecked cast cannot be established from segment validity; the segment %FF is accepted by Segment::new and makes ==, hash and chars() of the view panic on the real code (replayed on every run). Recorded as known finding; any other failing obligation is a violation.",
+        "level_note": "Only SegmentImpl (common/path.rs) is under contract; Host/UserInfo/Query/Fragment casts in uri/ iri/ are the same one-liners but outside Verus. pct-str itself is not verified.",
+    },
     "C09": {
         "technique": "Verus loop invariant on the real stack-based normaliser (view of the stack == left fold of the RFC step over the consumed segments) and exact-text contract on in-place normalize",
         "level_text": "Deductive proof for all paths of any length (no 16-segment / 512-byte bound): NormalizedSegmentsImpl::new returns exactly norm_fold(segs(path)), the left fold that drops '.', lets '..' remove the previous segment, keeps it when the path is relative and nothing (or only '..') is left, and drops it at the root of an absolute path; PathMutImpl::normalize rewrites the path window to first-offset + optional './' shield + the '/'-join of that sequence, leaves prefix and suffix (scheme, authority, query, fragment) byte-identical, cannot overflow (normalisation never lengthens: proved), and re-establishes the handle invariant.",
@@ -131,7 +168,6 @@ MANIFEST_TEXT = {
 
 NOT_APPLICABLE = {
     "C04": "check not built yet",
-    "C06": "check not built yet",
     "C07": "check not built yet",
     "C08": "check not built yet",
     "C13": "check not built yet",
@@ -139,5 +175,4 @@ NOT_APPLICABLE = {
     "C15": "check not built yet",
     "C17": "the objects are programs (macro invocations) run inside rustc on proc_macro::TokenStream; neither Verus nor Kani can specify or execute syn/quote",
     "C18": "check not built yet",
-    "C19": "check not built yet",
 }
